@@ -21,6 +21,9 @@ CLAIMED = {
  "C14": ("exploration", "exhaustive enumeration of the shape x fill rule x view x resolution x paint x colour space menus against a per-pixel winding oracle",
          "Every combination of the menus is rendered by the real rasterizer; every pixel whose centre is more than one pixel from the transformed outline is compared with rule.Fills(winding) computed by the oracle on its own dense flattening; render-twice identity, immutability of path data and gradient stops, image size, vertical flip and paint order are checked on every case; strokes for all cap/join menus against the region of the outline Path.Stroke returns.",
          "trusted: internal/oracle; 4/255 paint tolerance (scanline rasterizer quantisation, measured in the evidence); one known finding keyed by the input-only predicate 'outline leaves the image rectangle'", "DESIGN.md §5 C14"),
+ "C19": ("model_checking", "exhaustive enumeration of the documents of a small SVG grammar, each parsed by the real ParseSVG and compared with an independent evaluator of the SVG semantics",
+         "All documents of the grammar (7 size/viewBox forms x 10 transform lists nested up to 2 x 11 shapes x 18 style sources incl. attribute orders, style attribute, inheritance, CSS rules, colour syntaxes) are generated; for each one an independent evaluator written from the SVG specification gives canvas size, geometry in mm and computed style, which are compared with what the parsed canvas replays (two-sided dense Hausdorff distance, paints, effective stroke width, cap, join, miter limit).",
+         "trusted: the evaluator (shape-to-path equivalences of SVG 1.1 ch. 9, cascade rules), internal/oracle; two known findings keyed by predicates on the document (rx!=ry, anisotropic viewBox)", "DESIGN.md §4 C19"),
 }
 CUSTOM_CMD = {"C20": ("scripts/check_c20.sh quick", "scripts/check_c20.sh thorough")}
 REASON_PENDING = "check not built yet in this session (planned in DESIGN.md §9); not claimed until it exists and is green"
